@@ -27,7 +27,16 @@ def engine_numbers(ctx):
     """expected_batch_size = int(N * (1/L)) and the optimizer class table on the real code vs the generated definitions"""
     r = ctx.rng
     cases = [(r.randint(1, 5000), r.randint(1, 400)) for _ in range(ctx.n(300, 3000))]
-    py = vlib.run_impl('engine_numbers.py', {'ebs': cases, 'classes': True})
+    real = [[[r.choice([12, 32, 64, 50]), r.choice([4, 8, 5]), r.random() < 0.5, r.choice(['hooks', 'ghost', 'functorch'])] for _ in range(r.randint(1, 3))] for _ in range(ctx.n(6, 40))]
+    py = vlib.run_impl('engine_numbers.py', {'ebs': cases, 'classes': True, 'real': real})
+    for seq, got in zip(real, py['real']):
+        ctx.case({'engine_calls': seq}, nontrivial=len(seq) > 1, kind='engine-ebs/%d-calls' % len(seq))
+        for k, ((n, bs, poisson, mode), (ebs, L)) in enumerate(zip(seq, got)):
+            want = int(n * (1 / L))
+            if ebs != want:
+                ctx.fail('engine-expected-batch-size', 'make_private call #%d on one engine (dataset of %d, loader of %d batches, %s): expected_batch_size %r, int(N * 1/L) = %d'
+                         % (k + 1, n, L, mode, ebs, want), {'engine_calls': seq})
+                break
     header = ('From Coq Require Import ZArith List String Floats.PrimFloat.\nFrom OV Require Import Base.Num Base.NumF Base.Py Gen.Engine.\n'
               'Import ListNotations.\n')
     items = ['(%d%%Z, %d%%Z, %d%%Z)' % (n, l, e) for (n, l), e in zip(cases, py['ebs'])]
@@ -71,4 +80,8 @@ def replay_case(ctx, failure):
         r = vlib.run_impl('clip_numeric.py', {'sens': [], 'step': [c]})['step'][0]
         for b in r['bad'][:1]:
             ctx.fail('release-not-closed-form', b, c)
+    elif 'engine_calls' in c:
+        got = vlib.run_impl('engine_numbers.py', {'real': [c['engine_calls']]})['real'][0]
+        bad = [(k, ebs) for k, ((n, bs, _, _), (ebs, L)) in enumerate(zip(c['engine_calls'], got)) if ebs != int(n * (1 / L))]
+        return not bad, bad or 'holds'
     return len(ctx.failures) == n0, ctx.failures[n0:] or 'holds'
